@@ -1,11 +1,16 @@
 import PycsepVerif.Proto
 import PycsepVerif.Model.NumberTest
+import PycsepVerif.Model.NumberTestPub
 /-! driver ops of C07 (Float instance of Model/NumberTest.lean). Floats travel as IEEE bit patterns.
   c07_pois  μ n anchor ε        -> "d1 d2"  (delta12S: anchored, log-space start; any μ)
   c07_poisd μ n ε               -> "d1 d2"  (delta12: the direct recurrence from exp(-μ); only sensible for μ < 700)
   c07_nbd   mean var n anchor ε -> "d1 d2 r p"
   c07_nbdd  mean var n ε        -> "d1 d2"
-  c07_cat   sizes nobs          -> "k:n k:n" (catalog N-test) -/
+  c07_cat   sizes nobs          -> "k:n k:n" (catalog N-test)
+  c07_pub   base scales n       -> "d1 d2 total"  (numberTestPub on GF.init base scaled by the history `scales`, a catalog of
+                                   n rows; evaluated through delta12S = delta12 by `stable_eq`, anchor = min(n, ⌊total⌋))
+  c07_pubn  base scales n var   -> "d1 d2 total"  (nbdNumberTestPub, the same way)
+  c07_shift n                   -> "a b epsnum/epsden epsbits" (shiftF n; the rational epsF; the Float epsCode) -/
 namespace Drive.C07
 open Proto NumberTest
 
@@ -28,5 +33,23 @@ def handle : List String → Option String
           let q := catalogNTest xs v
           s!"{showOpt showPair q.1} {showOpt showPair q.2}"
       | _, _ => "bad-op")
+  | ["c07_pub", base, scales, n] => some (match parseList? parseFloat? base, parseList? parseFloat? scales, n.toNat? with
+      | some base, some scales, some n =>
+          let f : GF Float := (GF.init base).scaleAll scales
+          let mu := f.eventCount
+          let a := if mu < 0.0 then 0 else min n (Float.floor mu).toUInt64.toNat
+          s!"{show2 (delta12S mu a n (epsCode : Float))} {showFloat mu}"
+      | _, _, _ => "bad-op")
+  | ["c07_pubn", base, scales, n, v] => some (match parseList? parseFloat? base, parseList? parseFloat? scales, n.toNat?,
+        parseFloat? v with
+      | some base, some scales, some n, some v =>
+          let f : GF Float := (GF.init base).scaleAll scales
+          let mu := f.eventCount
+          let a := if mu < 0.0 then 0 else min n (Float.floor mu).toUInt64.toNat
+          s!"{show2 (nbdDelta12S mu a n v (epsCode : Float))} {showFloat mu}"
+      | _, _, _, _ => "bad-op")
+  | ["c07_shift", n] => some (match n.toNat? with
+      | some n => let p := shiftF n; s!"{p.1} {p.2} {showRat epsF} {showFloat (epsCode : Float)}"
+      | none => "bad-op")
   | _ => none
 end Drive.C07
